@@ -52,6 +52,7 @@ type Engine struct {
 	declIndex       map[string]*declInfo // FullName -> decl
 	axioms          []*Axiom
 	autoInline      map[string]bool
+	baseNames       map[string]baseNames // names as of the tree the contracts were written against (lib/names.json)
 	ranges          bool
 	debug           bool
 	needSubAxiom    bool
@@ -114,6 +115,7 @@ func (e *Engine) LoadContracts(libDir string) error {
 		}
 		e.files = append(e.files, cf)
 	}
+	e.loadBaseNames(libDir)
 	libs, _ := filepath.Glob(filepath.Join(libDir, "*.gvc"))
 	sort.Strings(libs)
 	for _, p := range libs {
